@@ -120,11 +120,12 @@ impl OutputFormat for IceDraw {
         Ok(result)
     }
 
-    fn load_buffer(&self, file_name: &Path, data: &[u8], _sauce_opt: Option<crate::SauceData>) -> EngineResult<crate::Buffer> {
+    fn load_buffer(&self, file_name: &Path, data: &[u8], sauce_opt: Option<crate::SauceData>) -> EngineResult<crate::Buffer> {
         let mut result = Buffer::new((80, 25));
         result.ice_mode = IceMode::Ice;
         result.is_terminal_buffer = false;
         result.file_name = Some(file_name.into());
+        result.set_sauce(sauce_opt, false);
 
         if data.len() < HEADER_SIZE + FONT_SIZE + PALETTE_SIZE {
             return Err(LoadingError::FileTooShort.into());
